@@ -200,10 +200,12 @@ static const char *c03_signature(int n, size_t j, const struct outcome *got, con
 }
 
 /* probes for reset == new (C04c): each reads some persistent scanner field */
-static const char *probes[] = {"\"A\"", "\"\\u00e9\"", "\"\\udc00\"", "\"\\ud83d\\ude00\"", "1.5e3", "12", "-7", "true", "false", "null",
-                               "NaN", "-Infinity", "'q'", "[1,[2,{\"a\":[]}]]", "{\"k\":\"v\"}", "/*c*/1", "\"\\n\"", "[",
-                               "{\"a\"", "\"x", "1e", "tru", "-", "\"\\u12", "\"\\ud83d", "{\"a\":1,", "[[[[", " ", "]", "\"\\ud83d\\u0041\""};
-#define NPROBES (int)(sizeof probes / sizeof probes[0])
+static const char *probes[] = {"\"\\u00e9\"", "\"\\udc00\"", "1.5e3", "true", "'q'", "[1,[2,{\"a\":[]}]]", "{\"k\":\"v\"}", "/*c*/1", "-7", "null", "[", "\"x",
+                               /* the quick tier stops here */
+                               "\"A\"", "\"\\ud83d\\ude00\"", "12", "false", "NaN", "-Infinity", "\"\\n\"", "{\"a\"", "1e", "tru", "-", "\"\\u12", "\"\\ud83d",
+                               "{\"a\":1,", "[[[[", " ", "]", "\"\\ud83d\\u0041\""};
+#define NPROBES_ALL (int)(sizeof probes / sizeof probes[0])
+#define NPROBES (mc_tier ? NPROBES_ALL : 12)
 static struct outcome probe_fresh[64];
 static uint64_t probe_fresh_dumps[64];
 static int probe_flags_done = -1, probe_depth_done = -1;
@@ -289,6 +291,12 @@ static void check_reset_equals_new(int n, size_t i, size_t j, uint64_t statekey)
 			             probes[k], oc_str(&o, a, sizeof a), oc_str(&probe_fresh[k], b, sizeof b));
 		}
 		/* a second probe after another reset: parse/reset/parse sequences */
+		if (!mc_tier && (k & 3))
+		{
+			json_tokener_free(tok);
+			MC_COUNT("probes", 1);
+			continue;
+		}
 		json_tokener_reset(tok);
 		int k2 = (k * 7 + 3) % NPROBES;
 		probe_call(tok, probes[k2], &o);
@@ -893,7 +901,9 @@ static void enumerate(void)
 		fam_docs();
 	if (!*only || !strcmp(only, "scanners"))
 		fam_scanners();
-	if (!*only || !strcmp(only, "tokens"))
+	/* C04 quick: the token-sequence family is covered by C03 quick (fast build); under the
+	 * sanitizers it is part of the thorough tier */
+	if ((!*only && !(opt_mode == 1 && !mc_tier)) || !strcmp(only, "tokens"))
 		fam_tokens();
 }
 
